@@ -1471,6 +1471,13 @@ pub fn run_trace(
         stats.bump(&format!("fault.scheduled.{}", f.kind()));
         if *a {
             stats.bump(&format!("fault.applied.{}", f.kind()));
+            // reach probe per crafted block family ("#g<id>" / "@off" suffixes removed)
+            if let crate::trace::Fault::Write { field, .. } = f {
+                if !field.is_empty() {
+                    let fam = field.split(|c| c == '#' || c == '@').next().unwrap_or("");
+                    stats.bump(&format!("crafted.{}", fam));
+                }
+            }
         }
     }
 
